@@ -406,6 +406,9 @@ func moveOutFile(w *bytes.Buffer, param *syntax.StructMember,
 		_, err := w.Write(nullBytes)
 		return err
 	}
+	// A directory may have been reported with a trailing slash, which
+	// cannot be replaced by a link of that name.
+	filePath = filepath.Clean(filePath)
 	// If file doesn't exist (e.g. stage just didn't create it)
 	// then report null
 	if info, err := os.Lstat(filePath); os.IsNotExist(err) {
